@@ -6,6 +6,8 @@ root = '/verif/seeded'
 _fr = json.load(open(os.path.join(root, 'FIRST_RUN.json')))
 first = dict(_fr['first_run'])
 first.update(_fr.get('first_run_round3', {}))
+first.update(_fr.get('first_run_round4', {}))
+twin4 = _fr.get('first_run_round4_corrected_twin_tripped', {})
 
 
 def rules_of(meta):
@@ -52,13 +54,17 @@ def table(ids, with_first):
         row = [sid, short(files, 60), short(m.get("summary", ""), 170), short(m.get("needs_to_manifest", ""), 120)]
         if with_first:
             f = first.get(sid, [])
-            row.append(', '.join(f) if f else '—')
+            cell = ', '.join(f) if f else '—'
+            if f and sid in twin4:
+                cell = '[' + cell + ']'
+            row.append(cell)
         row.append(now)
         print('| ' + ' | '.join(row) + ' |')
 
 
 all_ids = sorted(d for d in os.listdir(root) if os.path.isdir(os.path.join(root, d)))
-r1 = [d for d in all_ids if not d.startswith('r2-') and not d.startswith('r3-')]
+r1 = [d for d in all_ids if not d.startswith('r2-') and not d.startswith('r3-') and not d.startswith('r4-')]
+r4 = [d for d in all_ids if d.startswith('r4-')]
 r3 = [d for d in all_ids if d.startswith('r3-')]
 r2 = [d for d in all_ids if d.startswith('r2-')]
 which = sys.argv[1] if len(sys.argv) > 1 else 'both'
@@ -71,3 +77,6 @@ if which in ('r2', 'both'):
 if which in ('r3', 'both'):
     print('\n#### Round 3\n')
     table(r3, True)
+if which in ('r4', 'both'):
+    print('\n#### Round 4 (refactorings with one slip; "first run" in brackets when the corrected twin tripped the same check)\n')
+    table(r4, True)
